@@ -5,12 +5,12 @@ Three implementation-side experiments and their Coq counterparts:
 1. history: a sequence of render jobs (same/different templates, environments created explicitly or through
    liquid.Template, data with equal-but-distinct values) is run in ONE process that has rendered nothing before
    (a fork of a helper that has only imported liquid); every job of the sequence is also run ALONE in such a
-   process.  Oracle: the two outputs (text or exception class) are equal.  The Coq model Memo.run_proc (the memo
+   process.  Oracle: the two outputs (text or exception class) are equal.  The Coq model MemoPurity.run_proc (the memo
    tables in front of the fresh-process behaviour) predicts the in-sequence outputs.
 2. mutation: around every render the data is deep-copied and compared afterwards (types, values, order, and that
    every nested container is still the same object), and str(template) / analyze() are compared.
 3. effects: every modelled array filter is called on small heaps of list objects and the identity of what it hands
-   back (the input object, the argument object, an element, a new object) is compared with Memo.run_effect.
+   back (the input object, the argument object, an element, a new object) is compared with MemoPurity.run_effect.
 """
 
 from __future__ import annotations
@@ -25,7 +25,7 @@ import threading
 from ..core import Check
 from ..g import g_N, g_Z, g_bool, g_list, g_nat, g_opt, g_str
 
-IMPORTS = "Memo"
+IMPORTS = "MemoPurity"
 
 # --------------------------------------------------------------------------------------------- typed values
 # spec: ["none"] | ["bool", b] | ["int", n] | ["float", x] | ["dec", "1"] | ["str", s] | ["markup", s]
@@ -268,15 +268,27 @@ def containers(v, path, out):
     return out
 
 
+def span_picture(sp):
+    return tuple(getattr(sp, f, None) for f in ("template_name", "start", "index") if hasattr(sp, f))
+
+
+def analysis_of(a):
+    def vmap(m):
+        return sorted((k, sorted((str(v), span_picture(v.span)) for v in vs)) for k, vs in m.items())
+
+    def smap(m):
+        return sorted((k, sorted(span_picture(sp) for sp in sps)) for k, sps in m.items())
+
+    return ("ok", vmap(a.variables), vmap(a.globals), vmap(a.locals), smap(a.filters), smap(a.tags))
+
+
 def analysis_picture(t):
     from ..core import classify_exc
 
     try:
-        a = t.analyze()
+        return analysis_of(t.analyze())
     except Exception as e:  # noqa: BLE001
         return ("err", classify_exc(e))
-    return ("ok", sorted(map(str, a.variables)), sorted(map(str, a.local_variables)), sorted(map(str, a.global_variables)),
-            sorted(a.filters), sorted(a.tags))
 
 
 def run_job(proc: Proc, job, check_purity=True):
@@ -483,7 +495,7 @@ def targeted_sequences(ck: Check):
     for fam in fams:
         for a, b in itertools.permutations(fam, 2):
             for fmt in fmts if not ck.quick else fmts[:2]:
-                for mode in ("sync", "async"):
+                for mode in (("sync", "async") if not ck.quick or fam is fams[0] else ("sync",)):
                     seqs.append(("date-left", [date_job(a, fmt, mode=mode), date_job(b, fmt, mode=mode)]))
     # format collisions (str / Markup), autoescape on and off, implicit and explicit environments
     for f1, f2 in itertools.permutations([["str", "<b>%Y</b>"], ["markup", "<b>%Y</b>"]], 2):
@@ -535,33 +547,51 @@ def targeted_sequences(ck: Check):
     return seqs
 
 
-def random_sequences(ck: Check, n, maxlen):
+def random_sequences(ck: Check, n, maxlen, npool, ncfg):
+    """Sequences drawn from a per-run pool of distinct jobs (repetition is what exposes history)."""
     rng = ck.rng
+    cfgs = []
+    for _ in range(ncfg):
+        cfgs.append(dict(
+            delims=rng.choice(DELIMS) if rng.random() < 0.4 else DEFAULT_DELIMS,
+            flags=mk_flags(extra=rng.choice(TRUE_LIKE + FALSE_LIKE), tolerance=rng.randrange(3), undefined=rng.randrange(3),
+                           strict_filters=rng.choice(TRUE_LIKE + FALSE_LIKE), autoescape=rng.choice(TRUE_LIKE + FALSE_LIKE),
+                           template_comments=rng.choice(TRUE_LIKE[:1] + FALSE_LIKE[:1]))))
+    pool = []
+    for _ in range(npool):
+        e = rng.randrange(ncfg)
+        implicit = rng.random() < 0.3
+        mode = "async" if rng.random() < 0.4 else "sync"
+        if rng.random() < 0.45:
+            j = {"implicit": implicit, "env": e, "delims": cfgs[e]["delims"], "flags": cfgs[e]["flags"],
+                 "date": [rng.choice(DATE_LEFT), rng.choice(DATE_FMT[:6] if rng.random() < 0.7 else DATE_FMT)], "mode": mode}
+        else:
+            j = {"implicit": implicit, "env": e, "delims": cfgs[e]["delims"], "flags": cfgs[e]["flags"], "date": None,
+                 "tmpl": rng.randrange(len(TEMPLATES)), "data": rng.randrange(len(DATA)), "mode": mode,
+                 "analyze": rng.random() < 0.15, "reuse": rng.random() < 0.7}
+        pool.append(j)
     seqs = []
     for _ in range(n):
-        nenv = rng.randrange(1, 4)
-        envs = []
-        for e in range(nenv):
-            envs.append(dict(
-                delims=rng.choice(DELIMS) if rng.random() < 0.4 else DEFAULT_DELIMS,
-                flags=mk_flags(extra=rng.choice(TRUE_LIKE + FALSE_LIKE), tolerance=rng.randrange(3), undefined=rng.randrange(3),
-                               strict_filters=rng.choice(TRUE_LIKE + FALSE_LIKE), autoescape=rng.choice(TRUE_LIKE + FALSE_LIKE),
-                               template_comments=rng.choice(TRUE_LIKE[:1] + FALSE_LIKE[:1]))))
-        seq = []
-        for _ in range(rng.randrange(2, maxlen + 1)):
-            e = rng.randrange(nenv)
-            implicit = rng.random() < 0.3
-            mode = "async" if rng.random() < 0.4 else "sync"
-            if rng.random() < 0.45:
-                j = {"implicit": implicit, "env": e, "delims": envs[e]["delims"], "flags": envs[e]["flags"],
-                     "date": [rng.choice(DATE_LEFT), rng.choice(DATE_FMT[:6] if rng.random() < 0.7 else DATE_FMT)], "mode": mode}
-            else:
-                j = {"implicit": implicit, "env": e, "delims": envs[e]["delims"], "flags": envs[e]["flags"], "date": None,
-                     "tmpl": rng.randrange(len(TEMPLATES)), "data": rng.randrange(len(DATA)), "mode": mode,
-                     "analyze": rng.random() < 0.15, "reuse": rng.random() < 0.7}
-            seq.append(j)
-        seqs.append(("random", seq))
+        seqs.append(("random", [dict(rng.choice(pool)) for _ in range(rng.randrange(2, maxlen + 1))]))
     return seqs
+
+
+def make_sessions(seqs, per_session):
+    """Concatenate sequences into sessions (one process each); explicit environment identities are made
+    distinct per sequence.  Returns [(jobs, [(kind, start, stop)])]."""
+    sessions, jobs, spans, base = [], [], [], 0
+    for kind, seq in seqs:
+        nenv = max(j["env"] for j in seq) + 1
+        start = len(jobs)
+        jobs.extend(dict(j, env=j["env"] + base) for j in seq)
+        spans.append((kind, start, len(jobs)))
+        base += nenv
+        if len(jobs) >= per_session:
+            sessions.append((jobs, spans))
+            jobs, spans, base = [], [], 0
+    if jobs:
+        sessions.append((jobs, spans))
+    return sessions
 
 
 # ------------------------------------------------------------------------------------------------ Coq terms
@@ -738,82 +768,217 @@ def run(ck: Check) -> None:
         "probe only compares two renders of 'now' a few milliseconds apart for difference",
         "the day number of the date-string table is constant within a run",
     ]
+    import time as _t
+    t0 = _t.time()
+    pool = Pool(4)  # the helpers import the engine while the proof step runs
     ck.proof()
-
-    pool = Pool(4)
+    ck.extra["t_proof"] = round(_t.time() - t0, 1)
     try:
         _history(ck, pool)
     finally:
         pool.close()
     _clock(ck)
+    t0 = _t.time()
     _effects(ck)
+    ck.extra["t_effects"] = round(_t.time() - t0, 1)
+
+
+def jkey(job):
+    return json.dumps(canon(job), sort_keys=True)
+
+
+def collision_key(job):
+    """Hashable key under which Python itself identifies equal-but-distinct arguments (== and hash)."""
+    if job.get("date") is not None:
+        try:
+            k = ("date", decode(job["date"][0]), decode(job["date"][1]))
+            hash(k)
+            return k
+        except TypeError:
+            return None
+    if job["implicit"]:
+        return ("cfg", tuple(job["delims"]), tuple(decode(f) for f in job["flags"]))
+    return None
+
+
+def reference_batches(distinct, rng, size):
+    """Group the distinct jobs into batches in which no two jobs have arguments that compare equal but differ."""
+    keys = list(distinct)
+    rng.shuffle(keys)
+    batches = []
+    for k in keys:
+        ck_ = collision_key(distinct[k])
+        for b in batches:
+            if len(b["keys"]) < size and (ck_ is None or ck_ not in b["ckeys"]):
+                break
+        else:
+            b = {"keys": [], "ckeys": set()}
+            batches.append(b)
+        b["keys"].append(k)
+        if ck_ is not None:
+            b["ckeys"].add(ck_)
+    return [b["keys"] for b in batches]
 
 
 def _history(ck: Check, pool: Pool) -> None:
     seqs = targeted_sequences(ck)
-    seqs += random_sequences(ck, 500 if ck.quick else 5000, 4 if ck.quick else 8)
-    results = pool.map([s for _, s in seqs], purity=True)
-    all_jobs = [j for _, s in seqs for j in s]
-    closures = [closure_jobs(s) for _, s in seqs]
-    pool.fresh(all_jobs + [j for c in closures for j in c])
+    if ck.quick:
+        seqs += random_sequences(ck, 150, 4, 90, 5)
+    else:
+        seqs += random_sequences(ck, 2500, 8, 600, 16)
+    import time as _t
+    t0 = _t.time()
+    sessions = make_sessions(seqs, 120)
+    results = pool.map([jobs for jobs, _ in sessions], purity=True)
+    ck.extra["t_sessions"] = round(_t.time() - t0, 1)
+    closures = [closure_jobs(jobs) for jobs, _ in sessions]
+    distinct = {}
+    for jobs in [j for j, _ in sessions] + closures:
+        for j in jobs:
+            distinct.setdefault(jkey(j), lone(j))
+    # (a) every distinct job in two different collision-free histories (cheap); (b) a budget of jobs truly alone in a
+    # process that has rendered nothing, the probes of the targeted sequences first
+    envctr = [0]
+
+    def run_batches(batches):
+        reqs = []
+        for keys in batches:
+            req = []
+            for k in keys:
+                envctr[0] += 1
+                req.append(dict(distinct[k], env=envctr[0] % 1000))
+            reqs.append(req)
+        out = {}
+        for keys, res in zip(batches, pool.map(reqs, purity=False)):
+            for k, r in zip(keys, res):
+                out[k] = r["r"]
+        return out
+
+    batches_a = reference_batches(distinct, ck.rng, 40)
+    batches_b = [list(reversed(b)) for b in reference_batches(distinct, ck.rng, 27)]
+    t0 = _t.time()
+    ref_a, ref_b = run_batches(batches_a), run_batches(batches_b)
+    ck.extra["t_refs"] = round(_t.time() - t0, 1)
+    t0 = _t.time()
+    budget = 48 if ck.quick else 480
+    prio = []
+    for jobs, spans in sessions:
+        for kind, lo, hi in spans:
+            if kind != "random" and kind != "same-template":
+                prio.append(jkey(jobs[hi - 1]))
+    rest = [k for k in distinct if k not in set(prio)]
+    ck.rng.shuffle(rest)
+    chosen = list(dict.fromkeys(prio))
+    ck.rng.shuffle(chosen)
+    chosen = (chosen + rest)[:budget]
+    pool.fresh([distinct[k] for k in chosen])
+    ck.extra["t_fresh"] = round(_t.time() - t0, 1)
+
+    def reference(job):
+        k = jkey(job)
+        return pool.fresh_cache.get(k, ref_a[k])
+
+    reported_hist, reported_mut = {}, {}
+
+    def report_history(hist, lo, got):
+        """hist[-1] gave `got` after hist[:-1]; report it if that differs from a process that has rendered nothing."""
+        fresh = pool.fresh([hist[-1]])[0]
+        if got == fresh:
+            return False
+        sig = history_signature(hist[lo:], len(hist) - 1 - lo)
+        reported_hist[sig] = reported_hist.get(sig, 0) + 1
+        if reported_hist[sig] <= 2:
+            small = shrink_history(pool, hist, lo)
+            ck.violation(
+                "impl-violation", sig,
+                f"after {len(small) - 1} earlier render(s) in the same process, {describe(small[-1])} gives {got} "
+                f"but {fresh} in a process that has rendered nothing",
+                {"type": "history", "jobs": small, "in_history": got, "fresh": fresh})
+        return True
+
+    # the reference histories themselves must agree with each other and with the fresh processes
+    for batches, ref in ((batches_a, ref_a), (batches_b, ref_b)):
+        for keys in batches:
+            for i, k in enumerate(keys):
+                if ref[k] != ref_a[k] or ref[k] != ref_b[k] or (k in pool.fresh_cache and ref[k] != pool.fresh_cache[k]):
+                    report_history([distinct[x] for x in keys[: i + 1]], 0, ref[k])
     intern = Intern()
     cases, expected, meta = [], [], []
-    reported_hist, reported_mut = {}, {}
-    for (kind, seq), res, clo in zip(seqs, results, closures):
-        fresh = pool.fresh(seq)
+    for (jobs, spans), res, clo in zip(sessions, results, closures):
+        refs = [reference(j) for j in jobs]
         actual = [r["r"] for r in res]
-        ck.note_case(("seq", [json.dumps(canon(j), sort_keys=True) + str(j["env"]) for j in seq]), nontrivial=len(seq) > 1)
-        ck.count(f"history.{kind}.len{min(len(seq), 9)}")
-        for j in seq:
+        for kind, lo, hi in spans:
+            ck.note_case(("seq", [jkey(j) for j in jobs[lo:hi]]), nontrivial=hi - lo > 1)
+            ck.count(f"history.{kind}.len{min(hi - lo, 9)}")
+        for j in jobs:
             ck.count("job.date" if j.get("date") is not None else "job.template")
             ck.count("job.implicit" if j["implicit"] else "job.explicit")
-        bad = [i for i, (a, f) in enumerate(zip(actual, fresh)) if a != f]
-        if bad:
-            i = bad[0]
-            sig = history_signature(seq, i)
-            reported_hist[sig] = reported_hist.get(sig, 0) + 1
-            if reported_hist[sig] <= 2:
-                small = shrink_history(pool, seq[: i + 1])
-                ck.violation(
-                    "impl-violation", sig,
-                    f"after {len(small) - 1} earlier render(s) in the same process, {describe(small[-1])} gives {actual[i]} "
-                    f"but {fresh[i]} in a process that has rendered nothing",
-                    {"type": "history", "jobs": small, "in_history": actual[i], "fresh": fresh[i]})
+            ck.count("job." + j["mode"])
+        bad = set()
+        for i, (a, f) in enumerate(zip(actual, refs)):
+            if a != f:
+                lo = max(l for _, l, h in spans if l <= i)
+                if report_history(jobs[: i + 1], lo, a):
+                    bad.add(i)
         for i, r in enumerate(res):
             if r["mut"]:
-                sig = "mutation:" + ("date" if seq[i].get("date") is not None else TEMPLATES[seq[i]["tmpl"]][0])
+                sig = "mutation:" + ("date" if jobs[i].get("date") is not None else TEMPLATES[jobs[i]["tmpl"]][0])
                 reported_mut[sig] = reported_mut.get(sig, 0) + 1
                 if reported_mut[sig] <= 2:
-                    ck.violation("impl-violation", sig, f"render of {describe(seq[i])}: {r['mut']}",
-                                 {"type": "mutation", "jobs": [seq[i]], "what": r["mut"]})
-        # the model: fresh table of the sequence's jobs and of the substituted jobs, then the in-sequence outputs
-        tab = []
-        seen = set()
-        for j in list(seq) + clo:
-            for jj in ([j] if j["implicit"] else [j]):
-                key = json.dumps(canon(jj), sort_keys=True) + "|" + str(0 if jj["implicit"] else jj["env"])
-                if key in seen:
-                    continue
-                seen.add(key)
-                tab.append(f"({g_job(jj, intern(rest_key(jj)))}, {g_res(pool.fresh([jj])[0])})")
-        cases.append("{| pc_fresh := %s; pc_jobs := %s |}" % (g_list(tab), g_list(g_job(j, intern(rest_key(j))) for j in seq)))
+                    ck.violation("impl-violation", sig, f"render of {describe(jobs[i])}: {r['mut']}",
+                                 {"type": "mutation", "jobs": [jobs[i]], "what": r["mut"]})
+        # equal-but-distinct environment arguments must give the same behaviour (hypothesis cfg_respected of the theorem)
+        for v in clo:
+            orig = [j for j in jobs if j["implicit"] and jkey(dict(j, flags=v["flags"])) == jkey(v)
+                    and j["flags"] != v["flags"] and all(py_eq_spec(x, y) for x, y in zip(j["flags"], v["flags"]))]
+            for o in orig[:1]:
+                ck.count("cfg.equal-arguments-pair")
+                if reference(o) != reference(v):
+                    ck.violation("impl-violation", "history:implicit-environment:equal-arguments-differ",
+                                 f"{describe(o)} gives {reference(o)} but {describe(v)} gives {reference(v)}: liquid.Template "
+                                 "hands both the same memoised environment",
+                                 {"type": "history", "jobs": [lone(v), lone(o)], "in_history": reference(v), "fresh": reference(o)})
+        # the model: fresh table of the session's jobs and of the substituted jobs, then the in-session outputs
+        tab, seen = [], set()
+        for j in list(jobs) + clo:
+            key = jkey(j) + "|" + str(0 if j["implicit"] else j["env"])
+            if key in seen:
+                continue
+            seen.add(key)
+            tab.append(f"({g_job(j, intern(rest_key(j)))}, {g_res(reference(j))})")
+        cases.append("{| pc_fresh := %s; pc_jobs := %s |}" % (g_list(tab), g_list(g_job(j, intern(rest_key(j))) for j in jobs)))
         expected.append(g_list(g_res(a) for a in actual))
-        meta.append((kind, seq, actual, fresh, bool(bad)))
-    ck.sample({"sequence": [describe(j) for j in meta[0][1]], "in_history": meta[0][2], "fresh": meta[0][3]})
-    ck.sample({"sequence": [describe(j) for j in meta[-1][1]], "in_history": meta[-1][2], "fresh": meta[-1][3]})
-    mm = ck.coq_mismatches("proc", IMPORTS, "run_proc", "obs_eqb", "pcase", "list (res str)", cases, expected, chunk=120)
-    ck.traces += len(cases)
+        meta.append((jobs, actual, refs, bad))
+    ck.extra["sessions"] = len(sessions)
+    ck.extra["distinct_jobs"] = len(distinct)
+    ck.extra["reference_histories"] = len(batches_a) + len(batches_b)
+    ck.extra["jobs_run_alone_in_a_process_that_rendered_nothing"] = len(pool.fresh_cache)
+    j0, a0, f0, _ = meta[0]
+    ck.sample({"sequence": [describe(j) for j in j0[:2]], "in_history": a0[:2], "reference": f0[:2]})
+    j0, a0, f0, _ = meta[-1]
+    ck.sample({"sequence": [describe(j) for j in j0[-3:]], "in_history": a0[-3:], "reference": f0[-3:]})
+    t0 = _t.time()
+    mm = ck.coq_mismatches("proc", IMPORTS, "run_proc", "obs_eqb", "pcase", "list (res str)", cases, expected, chunk=2)
+    ck.extra["t_coq"] = round(_t.time() - t0, 1)
+    ck.traces += sum(len(m[0]) for m in meta)
     shown = 0
-    for i in mm:
-        kind, seq, actual, fresh, bad = meta[i]
-        if bad or shown >= 3:
-            continue  # explained by the oracle: the implementation depends on history there
-        shown += 1
-        model = ck.coq_eval(IMPORTS, [f"run_proc ({cases[i]})"])[0]
-        ck.violation("correspondence", "c17-proc-correspondence",
-                     f"model Memo.run_proc and the implementation disagree on a {kind} sequence of {len(seq)} jobs",
-                     {"type": "history", "jobs": seq, "impl": actual, "model": model[:2000],
-                      "broken": "correspondence Memo.run_proc ~ render sequences (theorem C17_history_independent)"}, no_input=True)
+    for si in mm:
+        jobs, actual, refs, bad = meta[si]
+        # locate the jobs on which the model and the implementation differ
+        idx = ck.coq_mismatches(f"loc{si}", IMPORTS, "(fun i => nth i (run_proc the_case) OutOfFuel)", "res_str_eqb", "nat",
+                                "res str", [g_nat(i) for i in range(len(jobs))], [g_res(a) for a in actual], chunk=5000,
+                                preamble=f"Definition the_case : pcase := {cases[si]}.")
+        for i in idx:
+            if i in bad or shown >= 3:
+                continue  # explained by the oracle: the implementation depends on history there
+            shown += 1
+            model = ck.coq_eval(IMPORTS, [f"nth {g_nat(i)} (run_proc the_case) OutOfFuel"],
+                                preamble=f"Definition the_case : pcase := {cases[si]}.")[0]
+            ck.violation("correspondence", "c17-proc-correspondence",
+                         f"model MemoPurity.run_proc and the implementation disagree on job {i} of a session: {describe(jobs[i])}",
+                         {"type": "history", "jobs": jobs[: i + 1], "impl": actual[i], "model": model[:1000],
+                          "broken": "correspondence MemoPurity.run_proc ~ render sequences (theorem C17_history_independent)"},
+                         no_input=True)
 
 
 def describe(job):
@@ -836,18 +1001,31 @@ def describe(job):
     return f"{cfg} template {TEMPLATES[job['tmpl']][0]!r} data x={decode(XVALUES[job['data']])!r} [{job['mode']}]"
 
 
-def shrink_history(pool: Pool, seq):
-    """Drop earlier jobs while the last job still differs from its fresh-process result."""
-    target_fresh = pool.fresh([seq[-1]])[0]
-    cur = list(seq)
-    i = 0
-    while i < len(cur) - 1:
-        cand = cur[:i] + cur[i + 1:]
-        r = pool.helpers[0].request(cand, purity=False)
-        if r[-1]["r"] != target_fresh:
-            cur = cand
+def shrink_history(pool: Pool, hist, lo=0):
+    """Smallest history found (own sequence first, then dropping chunks and single jobs) after which the last job
+    still differs from its fresh-process result."""
+    target_fresh = pool.fresh([hist[-1]])[0]
+
+    def fails(cand):
+        return pool.helpers[0].request(cand, purity=False)[-1]["r"] != target_fresh
+
+    cur = list(hist)
+    if lo and fails(cur[lo:]):
+        cur = cur[lo:]
+    n = 2
+    while len(cur) > 2 and n <= len(cur) - 1:
+        body = cur[:-1]
+        size = max(1, len(body) // n)
+        for start in range(0, len(body), size):
+            cand = body[:start] + body[start + size:] + [cur[-1]]
+            if len(cand) < len(cur) and fails(cand):
+                cur = cand
+                n = max(2, n - 1)
+                break
         else:
-            i += 1
+            if size == 1:
+                break
+            n = min(len(body), n * 2)
     return cur
 
 
@@ -901,7 +1079,7 @@ def _effects(ck: Check) -> None:
         ck.violation("correspondence", "c17-effect-correspondence",
                      f"effect table: filter {fname} on heap {h}, left {left}, argument {arg} hands back {cls}, the model says {model}",
                      {"type": "effect", "heap": h, "filter": fname, "cname": cname, "left": left, "arg": arg, "impl": cls, "model": model,
-                      "broken": "correspondence Memo.run_effect ~ array filters (theorem C17_filters_never_write_partial)"}, no_input=True)
+                      "broken": "correspondence MemoPurity.run_effect ~ array filters (theorem C17_filters_never_write_partial)"}, no_input=True)
 
 
 def replay(data) -> int:
